@@ -22,10 +22,21 @@ def mutant_table():
     return '\n'.join(rows)
 
 
+def benign_table():
+    rows = ['| probe | property | variants | alarmed at first run | rules that alarmed | what the variants did | response |', '|---|---|---|---|---|---|---|']
+    tot = al = 0
+    for m in json.load(open(os.path.join(V, 'seeded', 'benign_probes.json'))):
+        rows.append('| %s | %s | %d | %d | %s | %s | %s |' % (m['tag'], m['property'], m['variants'], m['alarmed'], m['rules'], m['what'], m['response']))
+        tot += m['variants']
+        al += m['alarmed']
+    rows.append('| **total** | | **%d** | **%d** | | | all %d silent after the generalisations |' % (tot, al, tot))
+    return '\n'.join(rows)
+
+
 def main():
     p = os.path.join(V, 'DESIGN.md')
     s = open(p).read()
-    for name, fn in (('SEEDED', seeded_table), ('MUTANTS', mutant_table)):
+    for name, fn in (('SEEDED', seeded_table), ('MUTANTS', mutant_table), ('BENIGN', benign_table)):
         a, b = '<!-- GEN:%s -->' % name, '<!-- /GEN:%s -->' % name
         if a in s and b in s:
             i, j = s.index(a) + len(a), s.index(b)
